@@ -189,6 +189,18 @@ CLAIMED = {
              "comparison is case- and blank-insensitive; attributes outside KEYWORD_LIST and multi-entity declarations outside",
         ref="DESIGN.md section 5 C11",
     ),
+    "C10": dict(
+        text="(G, symbolic) the link generation counter: the real serve_onSave and link resolution run traced from link_version = v with "
+             "an extending type of another file last resolved at version w; v and w are symbolic ints over the range the real counter can "
+             "take (probed from the code); the solver found the wrap-around pre-state (999, 0) on the pinned code and a concrete history of "
+             "~1000 edits confirmed it before it was reported. (H) a 6-file workspace (3-level EXTENDS across files, USE, type-bound link, "
+             "submodule, INCLUDE) under all histories of 2 (quick) / 3 (thorough) events out of 27 (query, unsaved edits to other versions "
+             "incl. a ranged single-line edit, saves, close, delete, re-create) and all final versions: after saving everything, completion "
+             "after three '%' sites, 7 definitions and hovers, references, diagnostics, document and workspace symbols equal a fresh server's.",
+        note="in-memory disk; H histories are enumerated concretely below the solver-chosen first event / final version; G re-parses the saved "
+             "file untraced; histories longer than 3 events only through G; macro leakage across files excluded by the property",
+        ref="DESIGN.md section 5 C10",
+    ),
 }
 
 NOT_APPLICABLE = {
